@@ -17,7 +17,6 @@ import (
 	"time"
 	"unicode/utf8"
 
-	"github.com/juev/hledger-lsp/internal/parser"
 	"github.com/juev/hledger-lsp/internal/server"
 	"go.lsp.dev/protocol"
 )
@@ -97,7 +96,7 @@ func c03Offset(text string, line, col int) int {
 
 func c03PublishedCase(s *c03Session, g *GJournal) map[string]any {
 	text := g.Text
-	j, _ := parser.Parse(text)
+	j, _ := hxParse(text)
 	incl := map[int]bool{}
 	for _, e := range g.Entries {
 		if e.Kind == "include" {
